@@ -681,7 +681,9 @@ def _inserts(job, ctx):
                     ctx.violation("C11|insert|%s|spurious-raise" % how, "%s of a valid item raised %r" % (how, raised), case)
                 if not ok and raised is None:
                     ctx.violation("C11|insert|%s|%s|accepted" % (how, name), "%s accepted an item that violates its own requirements (%s); items now %s"
-                                  % (how, name, [(i.r, i.n) for i in cfg.items]), case)
+                                  % (how, name, [(getattr(i, "r", "<not a configuration: %r>" % (i,)), getattr(i, "n", None)) for i in cfg.items]), case)
+                if raised is None and any(not isinstance(i, cc.Config) for i in cfg.items):
+                    ctx.violation("C11|insert|%s|raw-item-stored" % how, "%s stored an item that is not a configuration: %r" % (how, list(cfg.items)), case)
                 if ok and raised is None and "item" not in {e[0] for e in LOG}:
                     ctx.violation("C11|insert|%s|validator-not-run" % how, "%s did not run the item validator" % how, case)
     # sequences on one item object and one list: every (re-)insertion validates the item again
